@@ -38,6 +38,13 @@ def local_wrapper(t):
 
 
 def lifecycle_alphabet():
+    a = _lifecycle_alphabet()
+    # select!'s private result enum lives inside the loop coroutine: variants _0, _1, ..., Complete
+    a.adt_fn = lambda adt: "Sel" if adt.endswith("::__PrivResult") else None
+    return a
+
+
+def _lifecycle_alphabet():
     return Alphabet(
         calls=[
             ("started", trait_method(T_ACTOR, "started")),
@@ -189,6 +196,8 @@ class Lifecycle(Spec):
             if ev.endswith("None"):
                 return S(draining=True)
             return st
+        if ev == "sw:Sel::Complete":
+            return S(draining=True)
         if ev.startswith("sw:Payload::"):
             v = ev.split("::")[-1]
             if v == "Task":
@@ -236,6 +245,10 @@ class Lifecycle(Spec):
             if pending == "refreshing":
                 return S(pending="refreshres")
             return st
+        if ev in ("call:finished", "call:stopped") and phase == "run" and not draining and not (ev == "call:stopped" and fin == 2):
+            e13 = self.err("L13", "the loop shuts down without a Stop request, a closed mailbox or an exhausted stream (it must keep running while handles exist)")
+            if e13:
+                return e13
         if ev == "call:finished":
             if inflight:
                 return self.err("L7", "finished() while a handler future is in flight") or st
